@@ -421,11 +421,15 @@ def enumerate_corruptions(rng, obj, n_offsets=3, every_byte=False):
             if nb != files[f]:
                 A(Corruption(kind, cls, True, True, ("write", f, nb),
                              lambda a, f=f, nb=nb: "ChangeInventoryByte %s %d" % (a.path(f), a.tok(nb)), f, detail))
-        for off in _offsets(rng, len(b), n_offsets, every=every_byte and f == "inventory.json" and len(b) <= 6000):
+        for off in _offsets(rng, len(b), n_offsets, every=every_byte and len(b) <= 6000):
             inv_c("inventory-flip-byte", b[:off] + bytes([b[off] ^ rng.choice([1, 2, 0x20])]) + b[off + 1:], {"offset": off})
         for off in _offsets(rng, len(b), max(1, n_offsets - 1)):
             inv_c("inventory-insert-byte", b[:off] + rng.choice([b" ", b"x", b"0", b"\n"]) + b[off:], {"offset": off})
             inv_c("inventory-delete-byte", b[:off] + b[off + 1:], {"offset": off})
+        # the bytes then start with a complete JSON value that is no object (regression: fix 108a379 in serde::parse)
+        inv_c("inventory-not-an-object", b"[" + b[1:], {"offset": 0, "edit": "{ -> ["})
+        inv_c("inventory-not-an-object", b"0" + b, {"offset": 0, "edit": "digit in front"})
+        inv_c("inventory-not-an-object", b[1:], {"offset": 0, "edit": "first byte deleted"})
         inv_c("inventory-whitespace", b + b"\n", {"edit": "append newline"})
         inv_c("inventory-whitespace", b + b" ", {"edit": "append space"})
         inv_c("inventory-whitespace", b" " + b, {"edit": "prepend space"})
